@@ -260,9 +260,15 @@ def py_eval(e, env):
                     raise OutOfDomain("negative base, fractional exponent")
                 if a == 0 and b < 0:
                     raise OutOfDomain("zero to negative power")
+                if abs(float(b)) > 4096:
+                    # x**b multiplies the relative error of x by |b|: one unit in the last place of a function
+                    # value becomes 5e-11 under the exponent 512000 (met in the thorough tier) - ill-conditioned
+                    raise OutOfDomain("ill-conditioned power")
                 return float(a) ** float(b)
             if a == 0:
                 raise OutOfDomain("complex power of zero")
+            if abs(complex(b)) > 4096:
+                raise OutOfDomain("ill-conditioned power")
             return complex(a) ** complex(b)
     except (ZeroDivisionError, OverflowError):
         raise OutOfDomain("division by zero / overflow")
